@@ -314,6 +314,8 @@ class C10Monitor(Monitor):
             cand_specs = [("far", far)]
             if own:
                 cand_specs.append(("equal-own", own[-1].copy()))
+                # the same point after a round trip through arithmetic: every coordinate two ulps away ('numerically equal')
+                cand_specs.append(("equal-own", np.nextafter(np.nextafter(own[-1], np.inf), np.inf)))
             other = [s for s in seeds_all if not any(np.array_equal(s, o) for o in own)]
             if other:
                 cand_specs.append(("equal-other", other[0].copy()))
